@@ -9,10 +9,18 @@ CLAIMED = {
          "Proof: 16 theorems — for every history the count of each bin is the number of recorded samples attributed to it and the stored gradient is minus their sum (so gradient/count = minus the mean); which sample is recorded (late total forces: bin of the previous step, ABF force applied then removed unless the variable subtracts applied forces; same-step: current bin, nothing removed; none at ineligible steps); applied force zero outside the grid / applyBias off, equals ramp(count) x mean inside, capped by maxForce, zero-mean over a fully sampled periodic 1-D grid; ramp shape. Tied to the code by running the real bias under the simulator (1-3 variables, other biases on the same variables with/without subtractAppliedForce, grid exits, run boundaries) and comparing counts, gradients, total forces, applied forces and energy each step; an independent recount is the oracle.",
          "Model hand-written (CvModel/Abf.lean + Module.lean). Variables are value-injected distanceZ components (Jacobian term 0), so hideJacobian and eABF/CZAR, pABF and shared ABF are outside this check (shared ABF: C14). wf_step needs maxForce to have one entry per variable (the code rejects other lengths). Floating point not modelled.",
          "DESIGN.md §4 C04"),
+ "C05": ("Lean 4 theorems (deposition schedule, hill-sum identities, derivative of the truncated Gaussian, grid invariant by induction over histories, exact re-indexing on expansion) + differential correspondence with colvarbias_meta under the engine simulator",
+         "Proof: 14 theorems — a hill is deposited exactly at eligible multiples of newHillFrequency, centred at that step's values with the configured widths and height (times exp(-V/k dT) for well-tempered, V the bias at the deposition point); without grids energy and force are the sums over all hills; the force of a hill is minus the derivative of its energy inside the truncation radius; with grids every bin holds the sum of the tabulated hills evaluated at its centre after any history (keepHills on or off), the reported energy is the bin value plus the untabulated hills at the actual position inside the grid and the analytic edge hills outside; grid expansion is an exact re-indexing that keeps bin centres. Tied to the code on 1-2 variables (periodic or not), grid frequency equal to / a multiple of the hill frequency, hillWidth / gaussianSigmas, well-tempered, expandBoundaries, excursions beyond the grid, run boundaries; oracle = analytic hill sum.",
+         "Model hand-written (CvModel/Meta.lean). The hill is the code's truncated Gaussian (exponent cut at 23). grid_invariant is proved without expansion; bins added by expansion lack the tails of older hills by design (buffer 3*floor(hillWidth)+1 bins). Rebinning from kept hills at restart, ebMeta and multiple walkers are not modelled here (walkers: C14). Two defects repaired by fix: commits; one open finding (gaussianSigmas buffer) in known_findings.json.",
+         "DESIGN.md §4 C05"),
  "C06": ("Lean 4 theorems (closed forms with HasDerivAt, schedule invariants by induction over arbitrary run segmentations, work and TI bookkeeping) + differential correspondence with harmonic/harmonicWalls/linear restraints under the engine simulator incl. save/load",
          "Proof: 20 theorems — documented closed forms of harmonic (shortest-image), one/two-sided and periodic closest-wall, and linear potentials with force = minus derivative; continuous centre and force-constant schedules are functions of the absolute step alone; for every history of ordinary steps, repeated step-0 of new runs and restarts from saved state, the staged force-constant schedule has stage = min(T/n, stages) with the prescribed k, and staged centres have performed min((T-1)/n+1, stages+1) updates and sit at the interpolated value; per-step work increment formula, no work after the schedule, none on repeated steps; which steps the staged-TI accumulator samples and what it is divided by. Tied to the code on enumerated (kind, schedule) pairs with random segmentations (boundaries concentrated on stage switches), exact comparison of centres/k/stage/work/TI lines, plus a closed-form oracle.",
          "Model hand-written (CvModel/Restraint.lean, RestraintRun.lean), scalar (possibly periodic) variables; vector/unit-vector/quaternion harmonic energies rest on the C18 metric theorems; histogramRestraint and ABMD not modelled yet. Seven genuine defects found through this check were repaired by fix: commits (see known_findings.json). ti_output needs targetEquilSteps >= 0 (negation of the unrestricted statement proved on a witness). Floating point, 14-digit state files not modelled.",
          "DESIGN.md §4 C06"),
+ "C08": ("Lean 4 theorems about the per-step machine of the module (additivity of energy and per-atom forces over the bias list, independence of bias evolution, awake/asleep, impulse) + differential correspondence and an (A+B) = A + B oracle on the real library",
+         "Proof: 7 theorems — one step with biases A++B gives energy and per-atom forces equal to the sums for A and for B from the same state and each bias evolves as in its own subset; for whole histories the same holds at every step when no bias reads total forces; a sleeping bias is not updated and contributes nothing, a histogram never contributes; an awake bias with factor n applies n times its instantaneous force and over n steps delivers the impulse of applying it every step. Tied to the code by running random sets of 2-4 biases (harmonic, walls, linear, histogram, metadynamics, ABF) with factors 1-4 together and split in two instances, comparing with the model and checking sums and closed-form impulses on the implementation's own outputs.",
+         "Model hand-written (CvModel/Module.lean): value-injected scalar variables; time-step factors on biases only (variables keep factor 1). ABF coupling through subtractAppliedForce is exercised by the correspondence, not covered by superpose_run (which assumes biases ignore total forces). Scripted forces not modelled (Tcl not built). Floating point not modelled.",
+         "DESIGN.md §4 C08"),
  "C11": ("Lean 4 theorems about byte-level models of cvm::memory_stream and of the state-file replacement protocol + differential correspondence (bytes, cursor, stream state; crash outcomes under libc fault injection)",
          "Proof: 14 theorems — exact round trip for every element size/length and for sequences of writes, no out-of-bounds read for any buffer/cursor/length prefix (incl. byte counts wrapping 2^64), every strict prefix of a serialised object is an error, crash invariant of backup-rename/open/write*/close for every crash point and chunking, plus machine-checked witnesses of the two repaired defects and of the double-crash finding. Tied to the code by byte-exact comparison on generated and systematic corrupted streams, by loading truncated/bit-flipped real state files, and by killing the real process at every file operation.",
          "Models hand-written (CvModel/MemStream.lean, FileSys.lean). Memory safety of the callers is evidence from sampled runs, not proof. Crash = _exit at interposed libc calls; OS cache/power-loss semantics not modelled. Two defects repaired by fix: commits (43b054d1, f6c58e21); two open findings in known_findings.json (double crash; binary metadynamics block cut at a hill boundary).",
